@@ -604,6 +604,105 @@ def _items_loops(fn, pinned_locals, params):
     return done
 
 
+def _setdefault_stores(fn):
+    """`X.setdefault(K, <empty container>)[J] = W`  ->  `if K not in X: X[K] = <empty container>` ; `X[K][J] = W`  (the same for `.append(..)` / `.add(..)`
+    / `.update(..)` called on the setdefault result as a statement)."""
+    done = 0
+    for node in list(ast.walk(fn)):
+        for block in _blocks(node):
+            i = 0
+            while i < len(block):
+                st = block[i]
+                call = None
+                if isinstance(st, ast.Assign) and len(st.targets) == 1 and isinstance(st.targets[0], ast.Subscript) and isinstance(st.targets[0].value, ast.Call):
+                    call = st.targets[0].value
+                elif isinstance(st, ast.Expr) and isinstance(st.value, ast.Call) and isinstance(st.value.func, ast.Attribute) and isinstance(st.value.func.value, ast.Call) \
+                        and st.value.func.attr in ('append', 'add', 'update', 'extend'):
+                    call = st.value.func.value
+                if isinstance(st, ast.Expr) and isinstance(st.value, ast.Call) and isinstance(st.value.func, ast.Attribute) and st.value.func.attr == 'setdefault' \
+                        and len(st.value.args) == 2 and not st.value.keywords and _is_alias(st.value.func.value) and _pure(st.value.args[0]) and _pure(st.value.args[1]) \
+                        and not _empty_container(st.value.args[1]):
+                    # `R.setdefault(K, V)` with the result discarded  ->  `R[K] = R.get(K, V)`
+                    recv, key, val = st.value.func.value, st.value.args[0], st.value.args[1]
+                    new_st = ast.Assign(targets=[ast.Subscript(value=copy.deepcopy(recv), slice=copy.deepcopy(key), ctx=ast.Store())],
+                                        value=ast.Call(func=ast.Attribute(value=copy.deepcopy(recv), attr='get', ctx=ast.Load()), args=[copy.deepcopy(key), val], keywords=[]),
+                                        lineno=st.lineno)
+                    block[i] = ast.fix_missing_locations(ast.copy_location(new_st, st))
+                    done += 1
+                    i += 1
+                    continue
+                if call is not None and isinstance(call.func, ast.Attribute) and call.func.attr == 'setdefault' and len(call.args) == 2 and not call.keywords \
+                        and _empty_container(call.args[1]) and _is_alias(call.func.value) and _pure(call.args[0]):
+                    recv, key, empty = call.func.value, call.args[0], call.args[1]
+                    slot = ast.Subscript(value=copy.deepcopy(recv), slice=copy.deepcopy(key), ctx=ast.Load())
+                    guard = ast.If(test=ast.Compare(left=copy.deepcopy(key), ops=[ast.NotIn()], comparators=[copy.deepcopy(recv)]),
+                                   body=[ast.Assign(targets=[ast.Subscript(value=copy.deepcopy(recv), slice=copy.deepcopy(key), ctx=ast.Store())], value=empty, lineno=st.lineno)], orelse=[])
+                    if isinstance(st, ast.Assign):
+                        st.targets[0].value = slot
+                    else:
+                        st.value.func.value = slot
+                    block.insert(i, ast.fix_missing_locations(ast.copy_location(guard, st)))
+                    ast.fix_missing_locations(st)
+                    done += 1
+                    i += 1
+                i += 1
+    return ['setdefault-store*{}'.format(done)] if done else []
+
+
+def _defaultdict_back(fn, pinned_locals):
+    """A local the pinned function makes a `defaultdict(factory)` and this one makes a plain dict filled behind `if k not in x: x[k] = factory()` guards gets
+    its pinned spelling back: the definition becomes the defaultdict, the guards go (and `return x` is `return dict(x)` again where the pinned one was)."""
+    done = []
+    for name, shapes in pinned_locals.items():
+        factory = next((sh[len('Assign: FOCUS_ = defaultdict('):-1] for sh in shapes if sh.startswith('Assign: FOCUS_ = defaultdict(') and sh.endswith(')')), None)
+        if factory not in ('set', 'list', 'dict'):
+            continue
+        defs = [st for st in ast.walk(fn) if isinstance(st, ast.Assign) and len(st.targets) == 1 and isinstance(st.targets[0], ast.Name) and st.targets[0].id == name]
+        if len(defs) != 1 or _empty_container(defs[0].value) != 'dict':
+            continue
+        guards = []
+        for node in ast.walk(fn):
+            for block in _blocks(node):
+                for st in block:
+                    if isinstance(st, ast.If) and not st.orelse and len(st.body) == 1 and isinstance(st.test, ast.Compare) and len(st.test.ops) == 1 \
+                            and isinstance(st.test.ops[0], ast.NotIn) and isinstance(st.test.comparators[0], ast.Name) and st.test.comparators[0].id == name:
+                        b = st.body[0]
+                        if isinstance(b, ast.Assign) and len(b.targets) == 1 and isinstance(b.targets[0], ast.Subscript) and isinstance(b.targets[0].value, ast.Name) \
+                                and b.targets[0].value.id == name and ast.unparse(b.targets[0].slice) == ast.unparse(st.test.left) and _empty_container(b.value) == factory:
+                            guards.append((block, st))
+        if not guards:
+            continue
+        for block, st in guards:
+            block.remove(st)
+            if not block:
+                block.append(ast.copy_location(ast.Pass(), st))
+        defs[0].value = ast.copy_location(ast.Call(func=ast.Name(id='defaultdict', ctx=ast.Load()), args=[ast.Name(id=factory, ctx=ast.Load())], keywords=[]), defs[0].value)
+        if 'Return: return dict(FOCUS_)' in shapes:
+            for r in ast.walk(fn):
+                if isinstance(r, ast.Return) and isinstance(r.value, ast.Name) and r.value.id == name:
+                    r.value = ast.Call(func=ast.Name(id='dict', ctx=ast.Load()), args=[r.value], keywords=[])
+        if 'Assign: FOCUS_ = dict(FOCUS_)' in shapes and not any(
+                isinstance(st, ast.Assign) and isinstance(st.value, ast.Call) and ast.unparse(st.value) == 'dict({})'.format(name) for st in ast.walk(fn)):
+            # put the conversion back right after the (outermost) loop that fills the table
+            for node in ast.walk(fn):
+                for block in _blocks(node):
+                    for k, st in enumerate(block):
+                        if isinstance(st, (ast.For, ast.While)) and any(isinstance(x, ast.Name) and x.id == name for x in ast.walk(st)) and node is fn:
+                            block.insert(k + 1, ast.copy_location(ast.Assign(targets=[ast.Name(id=name, ctx=ast.Store())],
+                                                                              value=ast.Call(func=ast.Name(id='dict', ctx=ast.Load()), args=[ast.Name(id=name, ctx=ast.Load())], keywords=[]),
+                                                                              lineno=st.lineno), st))
+                            break
+                    else:
+                        continue
+                    break
+                else:
+                    continue
+                break
+        ast.fix_missing_locations(fn)
+        done.append('defaultdict:' + name)
+    return done
+
+
 # ----------------------------------------------------------------------------------------------------------------- step 4b
 def _empty_container(node):
     if isinstance(node, (ast.List, ast.Set)) and not node.elts:
@@ -704,30 +803,70 @@ def _literal(node):
     return False
 
 
-def _module_constants(module, pinned_names):
+def _display(node):
+    """A literal, or a container display / constructor call made of literals only (a read-only table)."""
+    if _literal(node):
+        return True
+    if isinstance(node, ast.Name) and node.id in ('str', 'int', 'float', 'bool', 'bytes', 'complex', 'tuple', 'list', 'dict', 'set', 'frozenset', 'object'):
+        return True
+    if isinstance(node, (ast.List, ast.Set, ast.Tuple)):
+        return all(_display(e) for e in node.elts)
+    if isinstance(node, ast.Dict):
+        return all(k is not None and _display(k) for k in node.keys) and all(_display(v) for v in node.values)
+    if isinstance(node, ast.Call) and not node.keywords and len(node.args) <= 1:
+        name = node.func.attr if isinstance(node.func, ast.Attribute) else getattr(node.func, 'id', None)
+        if name in ('OrderedDict', 'dict', 'frozenset', 'set', 'tuple', 'list'):
+            return all(_display(a) for a in node.args)
+    return False
+
+
+def _module_constants(module, pinned_names, roles=None):
+    """A new module-level name bound once to a literal or a read-only table of literals: a function of the pinned tree that has a local bound to the very
+    same value gets that local back (`name = <value>` at its top, uses renamed); elsewhere the value is written in place of the name."""
     done = []
     tree = module.tree
+    roles = roles or {}
     for st in list(tree.body):
         if not (isinstance(st, ast.Assign) and len(st.targets) == 1 and isinstance(st.targets[0], ast.Name)):
             continue
         name = st.targets[0].id
-        if name in pinned_names or name.startswith('__') or not _literal(st.value):
+        if name in pinned_names or name.startswith('__') or not _display(st.value):
             continue
         bindings = [n for n in ast.walk(tree) if (isinstance(n, ast.Name) and n.id == name and isinstance(n.ctx, (ast.Store, ast.Del)))
                     or (isinstance(n, ast.arg) and n.arg == name) or (isinstance(n, (ast.Global, ast.Nonlocal)) and name in n.names)
                     or (isinstance(n, FUNC_TYPES + (ast.ClassDef,)) and n.name == name)]
         if len(bindings) != 1:
             continue
-        # exported names (used from other modules) cannot be seen here; a new private or public constant used only in this module is inlined,
+        if not _literal(st.value) and _mutated_through(tree, name):
+            continue
+        shape = 'Assign: FOCUS_ = ' + ast.unparse(st.value)
+        count = 0
+        for qual, fn in list(module.functions.items()):
+            if not any(isinstance(n, ast.Name) and n.id == name for n in ast.walk(fn)):
+                continue
+            parent_is_function = any(isinstance(a, FUNC_TYPES) for a in module.ancestors(fn))
+            if parent_is_function:
+                continue        # handled as part of the enclosing function
+            local = next((loc for loc, shapes in (roles.get(qual) or {}).items() if shape in shapes), None)
+            taken = {n.id for n in ast.walk(fn) if isinstance(n, ast.Name)} | {a.arg for a in ast.walk(fn) if isinstance(a, ast.arg)}
+            if local is not None and local not in taken:
+                for n in ast.walk(fn):
+                    if isinstance(n, ast.Name) and n.id == name:
+                        n.id = local
+                pos = 1 if fn.body and isinstance(fn.body[0], ast.Expr) and isinstance(fn.body[0].value, ast.Constant) and isinstance(fn.body[0].value.value, str) else 0
+                fn.body.insert(pos, ast.copy_location(ast.Assign(targets=[ast.Name(id=local, ctx=ast.Store())], value=copy.deepcopy(st.value), lineno=fn.lineno), fn.body[pos] if len(fn.body) > pos else fn))
+                count += 1
+        # exported names (used from other modules) cannot be seen here; what is left of the name in this module is replaced by the value,
         # the binding itself is kept (harmless) so that importers still resolve it
         sub = _Subst({name: st.value})
         for k, other in enumerate(tree.body):
             if other is not st:
                 tree.body[k] = sub.visit(other)
-        if sub.count:
+        if sub.count or count:
             done.append(name)
     if done:
         ast.fix_missing_locations(tree)
+        module.reindex()
     return done
 
 
@@ -801,7 +940,7 @@ def normalise_module(module):
         return {}
     roles = alpha.stored().get(module.rel, {})
     applied = {}
-    consts = _module_constants(module, set(pinned.get('names', [])))
+    consts = _module_constants(module, set(pinned.get('names', [])), roles)
     if consts:
         applied['<module>'] = consts
     known = set(inventory)
@@ -813,6 +952,8 @@ def normalise_module(module):
         done = []
         done += ['def->lambda:' + n for n in _defs_to_lambdas(fn, pinned_locals)]
         done += _conditional_assignments(fn, pinned_locals, params)
+        done += _setdefault_stores(fn)
+        done += _defaultdict_back(fn, pinned_locals)
         done += _items_loops(fn, pinned_locals, params)
         done += _loops_and_comprehensions(fn, pinned_locals)
         done += _unhoist_locals(fn, pinned_locals, params)
